@@ -674,7 +674,7 @@ def opt_las(R):
     R.check("IR.opt.las.store-untouched", LAS + ".v_VariableAccessInstruction", not ru and not rp, detail="a store must not be forwarded or removed")
 
 
-@family("IR.opt.cc", props=["C02", "C05"], functions=[OCC + ".v_CastInstruction", "nsl.VM::ExecutionContext.__Execute"],
+@family("IR.opt.cc", props=["C02", "C05", "C06", "C09"], functions=[OCC + ".v_CastInstruction", "nsl.VM::ExecutionContext.__Execute"],
         assumptions=["constants enumerated over {0, 1, -1, 7, 2.5, -2.5, 1e6} x target types {float, int, uint}; the folded value is compared with what the VM's own CAST arm computes for the same operand"])
 def opt_cc(R):
     """For every scalar target type and constant c the visitor leaves the cast alone or replaces it by a constant OF THE TARGET TYPE whose value
